@@ -91,6 +91,33 @@ fn main() {
             let count: u64 = args[5].parse().unwrap();
             driver::slow_main(def, &sub, start, count);
         }
+        "expand" => {
+            // debugging aid: print the chunk structure of expand_zlib_chunks(file)
+            let raw = std::fs::read(&args[2]).unwrap();
+            let data = if args[2].ends_with(".json") {
+                let v: serde_json::Value = serde_json::from_slice(&raw).unwrap();
+                engine::doc_bytes(&v, "hex").unwrap()
+            } else {
+                raw
+            };
+            let e = preflate_rs::expand_zlib_chunks(&data, 0).unwrap();
+            let chunks = model_container::parse_container(&e).unwrap();
+            let ext = model_container::file_extents(&e, &chunks, &|p, c| {
+                preflate_rs::recompress_deflate_stream(p, c).ok().map(|v| v.len())
+            });
+            eprintln!("file {} bytes, container {} bytes", data.len(), e.len());
+            for (i, c) in chunks.iter().enumerate() {
+                eprintln!(
+                    "chunk {} {:?} data_len={} corr_len={} idat={:?} extent={:?}",
+                    i,
+                    c.kind,
+                    c.data_len,
+                    c.corr_len,
+                    c.idat_sizes,
+                    ext.as_ref().map(|e| e[i])
+                );
+            }
+        }
         "replay" => {
             if args.len() < 4 {
                 usage();
